@@ -193,10 +193,20 @@ def _jitter(scn, src, dst, delta, seed):
         jitter_command(src, dst, delta, seed=seed, force=True)
 
 
+def expand_big(scn):
+    """size reach for the tools: tens of thousands of pipelines, described compactly (arrival k * step)"""
+    b = scn["big"]
+    step = frac(b["step"])
+    arr = [fstr(step * k) for k in range(b["n"])]
+    return dict(scn, arrivals=arr, nops=[1] * b["n"])
+
+
 def run_jitter(scn):
     import_repo()
     from eudoxia.tools import jitter_command
     out = {"violation": None, "discard": None, "faults": {}, "probes": {}, "ticks": 0, "nontrivial": True}
+    if scn.get("big") and "arrivals" not in scn:
+        scn = expand_big(scn)
     delta = scn["delta"]
     seed = scn["seed"]
     d = tempfile.mkdtemp(prefix="verif_c20_")
@@ -440,6 +450,11 @@ def run_sample(scn):
 
 
 def gen_scn(r, family, tier):
+    if family == "bigjitter":
+        n = r.choice([52000, 66000, 101000, 131000] if tier == "quick" else [52000, 101000, 131000, 263000])
+        return {"kind": "jitter", "tps": r.choice([10, 100]), "big": {"n": n + r.randint(0, 3000), "step": r.choice(["0.01", "0.003", "0.25"])},
+                "delta": r.choice([1.0, 2.0, 0.05]), "seed": r.choice([None, 7, r.randint(0, 10 ** 6)]), "seed_step": 1,
+                "extra_col": False, "id_prefix": "p", "via_main": r.random() < 0.5}
     if family == "sample":
         from .tracecmp import gen_params
         p = gen_params(r)
